@@ -12,6 +12,7 @@ import Pumpkin.Model.SemMin
 import Pumpkin.Model.RecMin
 import Pumpkin.Model.PropagationCompile
 import Pumpkin.Model.Search
+import Pumpkin.Model.Narrow
 
 namespace Pumpkin.C02
 
@@ -146,6 +147,24 @@ theorem nolearning_search_sat_sound {σ : Type} (ps : List Pg.PropInst) (strat :
     (fuel : Nat) (s : σ) (d0 : Pg.Doms) (a : List Int) (h : Pg.search ps strat fuel s d0 [] = .sat a)
     (hw : ∀ p ∈ ps, p.Wf a.length) (hpre : ∀ p ∈ ps, p.Pre a) : ∀ p ∈ ps, p.cons.sat a = true :=
   Pg.search_sat_sound ps strat a fuel s d0 [] h hw hpre
+
+/-- **End to end**: the modelled solver (`Pg.solveNL`: post the `Spec` model at the root — decomposition
+into propagators, fixpoint after each posting — then the search loop) answers `unsat` only for models
+without solutions, whatever the strategy and the fuel … -/
+theorem modelled_solver_unsat_sound {σ : Type} (m : Model) (hw : ∀ c ∈ m.cons, Pg.consWf m.doms.length c)
+    (strat : σ → Pg.Doms → Pg.Choice σ) (hsw : Pg.StratWf m.doms.length strat) (fuel : Nat) (s0 : σ)
+    (h : Pg.solveNL m strat fuel s0 = some .unsat) : solutions m = [] :=
+  Pg.solveNL_unsat_sound m hw strat hsw fuel s0 h
+
+/-- … and `sat a` only for a solution of the model (C01 for the modelled solver). -/
+theorem modelled_solver_sat_sound {σ : Type} (m : Model) (hw : ∀ c ∈ m.cons, Pg.consWf m.doms.length c)
+    (strat : σ → Pg.Doms → Pg.Choice σ) (fuel : Nat) (s0 : σ) (a : List Int)
+    (h : Pg.solveNL m strat fuel s0 = some (.sat a))
+    (hpre : ∀ ps, Pg.compileAll m.doms m.cons = some ps → ∀ p ∈ ps, p.Pre a) : m.sat a = true :=
+  Pg.solveNL_sat_sound m hw strat fuel s0 a h hpre
+
+example : Pg.solveNL { doms := [[0, 1, 2], [0, 1, 2]], cons := [Cons.allDiff [⟨1, 0, 0⟩, ⟨1, 0, 1⟩], Cons.linEq [⟨1, 0, 0⟩, ⟨1, 0, 1⟩] 3] }
+    (fun (s : List Atom) _ => match s with | p :: r => .decide p r | [] => .done) 5 [Atom.le 0 1] = some (.sat [1, 2]) := by decide
 
 -- x0 + x1 ≤ 1, x0 ≠ x1 over {0,1}²: deciding x0 = 1 first needs no backtrack, deciding x0 ≤ 0 and x1 ≤ 0 does
 example : Pg.search [.linLe [⟨1, 0, 0⟩, ⟨1, 0, 1⟩] 1, .linNe [⟨1, 0, 0⟩, ⟨-1, 0, 1⟩] 0]
